@@ -163,6 +163,10 @@ var modPathsV2 = []string{"example.com/a/v2", "rsc.io/quote/v3", "gopkg.in/yaml.
 
 func (g *modGen) pathAndVersion() (string, string) {
 	r := g.r
+	if r.Intn(25) == 0 {
+		// a quoted argument whose content is a significant token
+		return SignificantTokens[r.Intn(len(SignificantTokens))], "v1." + strconv.Itoa(r.Intn(3)) + ".0"
+	}
 	if r.Intn(4) == 0 {
 		p := modPathsV2[r.Intn(len(modPathsV2))]
 		maj := p[strings.LastIndexAny(p, "v")+1:]
@@ -230,7 +234,23 @@ func QuoteProbe(r *rand.Rand) string {
 }
 
 // quote a token the way a user might: plain, interpreted string, rarely a raw string
+// SignificantTokens are strings whose bare form is a syntactically significant token of
+// a go.mod line; as arguments they must be written quoted.
+var SignificantTokens = []string{"=>", "=>", "=>", "(", ")", "//", "[", "]", ",", "module", "go", "require", "{", "}", "/*"}
+
+func isSignificant(s string) bool {
+	for _, t := range SignificantTokens {
+		if s == t {
+			return true
+		}
+	}
+	return false
+}
+
 func (g *modGen) tok(s string) string {
+	if isSignificant(s) {
+		return strconv.Quote(s)
+	}
 	if g.o.NoQuoting || s == "" {
 		if s == "" {
 			return `""`
@@ -388,6 +408,9 @@ func (g *modGen) directive(verb string) modLine {
 	switch verb {
 	case "module":
 		p := pick(r, "example.com/m", "example.com/m/v2", "golang.org/x/mod", "m", "example.com/with space", "gopkg.in/m.v3", "example.com/m(x)")
+		if r.Intn(30) == 0 {
+			p = SignificantTokens[r.Intn(len(SignificantTokens))]
+		}
 		return modLine{toks: []string{g.tok(p)}}
 	case "go":
 		v := pick(r, "1.21", "1.21.0", "1.22", "1.22rc1", "1.23.4", "1.100")
@@ -421,11 +444,17 @@ func (g *modGen) directive(verb string) modLine {
 	case "retract":
 		return g.retractLine()
 	case "tool":
+		if r.Intn(15) == 0 {
+			return modLine{toks: []string{g.tok(SignificantTokens[r.Intn(len(SignificantTokens))])}}
+		}
 		if r.Intn(8) == 0 {
 			return modLine{toks: []string{strconv.Quote(HostileDir(r))}}
 		}
 		return modLine{toks: []string{g.tok(pick(r, "example.com/a/cmd/x", "golang.org/x/tools/cmd/stringer", "./cmd/y", "example.com/t ool"))}}
 	case "use":
+		if r.Intn(15) == 0 {
+			return modLine{toks: []string{g.tok(SignificantTokens[r.Intn(len(SignificantTokens))])}}
+		}
 		if r.Intn(5) == 0 {
 			return modLine{toks: []string{strconv.Quote(HostileDir(r))}}
 		}
@@ -659,4 +688,50 @@ func TestdataMutant(r *rand.Rand) string {
 		}
 	}
 	return s
+}
+
+// ---------------------------------------------------------------- truncated directives
+
+var truncArgs = map[string][][]string{
+	"module":    {{"example.com/m"}},
+	"go":        {{"1.21"}},
+	"toolchain": {{"go1.21.0"}},
+	"godebug":   {{"panicnil=1"}},
+	"require":   {{"example.com/a", "v1.0.0"}},
+	"exclude":   {{"example.com/a", "v1.0.0"}},
+	"replace": {{"example.com/a", "v1.0.0", "=>", "example.com/b", "v1.0.1"}, {"example.com/a", "=>", "./dir"},
+		{"example.com/a", "v1.0.0", "=>", "./dir"}, {"example.com/a", "=>", "example.com/b", "v1.0.1"}},
+	"retract": {{"v1.0.0"}, {"[", "v1.0.0", ",", "v1.1.0", "]"}},
+	"tool":    {{"example.com/a/cmd/x"}},
+	"use":     {{"./a"}},
+}
+
+// TruncatedDirectives returns, for go.mod (work = false) or go.work, every directive verb
+// followed by each proper prefix of a well-formed argument list (and the full list), in
+// line form and inside a block, after a valid header.  A small exhaustive domain.
+func TruncatedDirectives(work bool) []string {
+	verbs := []string{"module", "go", "toolchain", "godebug", "require", "exclude", "replace", "retract", "tool"}
+	header := "module example.com/m\n\n"
+	if work {
+		verbs = []string{"go", "toolchain", "godebug", "use", "replace"}
+		header = ""
+	}
+	var out []string
+	for _, v := range verbs {
+		for _, full := range truncArgs[v] {
+			for n := 0; n <= len(full); n++ {
+				args := strings.Join(full[:n], " ")
+				h := header
+				if v == "module" {
+					h = ""
+				}
+				out = append(out, h+strings.TrimRight(v+" "+args, " ")+"\n")
+				out = append(out, h+v+" (\n\t"+args+"\n)\n")
+				if n > 0 {
+					out = append(out, h+v+" (\n\t"+strings.Join(full, " ")+"\n\t"+args+" // c\n)\n")
+				}
+			}
+		}
+	}
+	return out
 }
